@@ -620,3 +620,20 @@ func (st *State) UninstallLight() {
 		cur = nil
 	}
 }
+
+// ---------------------------------------------------------------- goroutine schedule
+
+var yieldHook func(site string)
+
+// SetYieldHook installs the scheduler callback that the instrumented program
+// calls before every channel send and at the start of every goroutine it
+// starts. nil removes it.
+func SetYieldHook(f func(site string)) { yieldHook = f }
+
+// Yield is the schedule point the instrumenter inserts (rule R7). Without a
+// hook it does nothing.
+func Yield(site string) {
+	if h := yieldHook; h != nil {
+		h(site)
+	}
+}
